@@ -90,15 +90,10 @@ func (r *Reader) readXRef() (map[uint32]*xRefEntry, Dict, error) {
 			if err != nil {
 				return nil, nil, Wrap(err, fmt.Sprintf("table at byte %d", start))
 			}
-			s, err = r.scannerFrom(start, false)
-			if err != nil {
-				return nil, nil, err
-			}
-			dict, err = readXRefTable(xref, s, dict["Prev"] == nil)
-			if err != nil {
-				return nil, nil, Wrap(err, fmt.Sprintf("table at byte %d", start))
-			}
-
+			// In a hybrid-reference file the table lists the objects which
+			// are described by the stream /XRefStm points to as free, to hide
+			// them from readers which only know the table: the entries of the
+			// stream take precedence.
 			if xRefStm, ok := dict["XRefStm"]; ok {
 				zStart, ok := xRefStm.(Integer)
 				if !ok {
@@ -120,6 +115,15 @@ func (r *Reader) readXRef() (map[uint32]*xRefEntry, Dict, error) {
 						return nil, nil, Wrap(err, "XRefStm")
 					}
 				}
+			}
+
+			s, err = r.scannerFrom(start, false)
+			if err != nil {
+				return nil, nil, err
+			}
+			dict, err = readXRefTable(xref, s, dict["Prev"] == nil)
+			if err != nil {
+				return nil, nil, Wrap(err, fmt.Sprintf("table at byte %d", start))
 			}
 		default:
 			dict, ref, err = r.readXRefStream(xref, s)
